@@ -158,6 +158,11 @@ def step (t : List String) : String :=
 def runCase (hdr : List String) (ops : List String) : List String :=
   match hdr with
   | ["x"] => "ok" :: ops.map fun l => step (toks l)
+  -- history mode: the harness keeps secret / additional data / plaintext of all calls of the
+  -- case in the same backing arrays, overwritten in place between calls.  Every entry point of
+  -- the model is a function of its current arguments (and the salt) only, so the answers are
+  -- those of mode `x`; the comparison checks the real code has no memory of earlier calls.
+  | ["hist"] => "ok" :: ops.map fun l => step (toks l)
   | _ => "bad-op" :: ops.map fun _ => "bad-op"
 
 end Golib.C09
